@@ -3,7 +3,7 @@ CONSTANTS
   MaxDepth = 4
   Gen = TRUE
   GenMod = 5
-  Alphabet = "small"
+  Alphabet = "gen"
 SPECIFICATION Spec
 INVARIANTS TypeOK EqIffCellsAgree DiffOK AreaTight ObsOK PatternBack
 PROPERTIES StepProp
